@@ -10,6 +10,7 @@ import (
 	"time"
 
 	"github.com/buzzfeed/sso/internal/pkg/aead"
+	"github.com/buzzfeed/sso/internal/pkg/sessions"
 	"github.com/buzzfeed/sso/internal/proxy"
 	"github.com/buzzfeed/sso/verif/engine/explore"
 	"github.com/buzzfeed/sso/verif/engine/vtime"
@@ -144,7 +145,12 @@ func c06Run(c *fw.Ctx) {
 	type named struct{ n, v string }
 	states := []named{{"absent", ""}, {"garbage", "Z2FyYmFnZQ"}, {"state_A", fa.State}, {"state_A'", fa2.State}, {"state_A''-second-tab", fa3.State}, {"state_B", fb.State},
 		{"cookie_A-as-state", fa.Cookie}, {"re-encoded-cookie_A", reenc}, {"sealed-under-other-key", otherKey}}
-	cookies := []named{{"absent", ""}, {"garbage", "Z2FyYmFnZQ"}, {"cookie_A", fa.Cookie}, {"cookie_A'", fa2.Cookie}, {"cookie_A''-second-tab", fa3.Cookie}, {"cookie_B", fb.Cookie}, {"state_A-as-cookie", fa.State}}
+	// values sealed by this proxy that are not flow records: a session cookie value
+	fut := harness.At(time.Hour)
+	sealedSession := e.Seal(&sessions.SessionState{ProviderSlug: slugA, ProviderType: "sso", AccessToken: "at", RefreshToken: "rt", LifetimeDeadline: fut, RefreshDeadline: fut, ValidDeadline: fut,
+		Email: "bob@corp.test", User: "bob", AuthorizedUpstream: hostA})
+	states = append(states, named{"sealed-session-as-state", sealedSession})
+	cookies := []named{{"sealed-session-as-cookie", sealedSession}, {"absent", ""}, {"garbage", "Z2FyYmFnZQ"}, {"cookie_A", fa.Cookie}, {"cookie_A'", fa2.Cookie}, {"cookie_A''-second-tab", fa3.Cookie}, {"cookie_B", fb.Cookie}, {"state_A-as-cookie", fa.State}}
 	codes := []string{"", "code-allowed", "code-denied", "code-rejected", "code-unavailable", "code-allowed-long-tokens"}
 	errs := []string{"", "access_denied"}
 	hosts := []string{hostA, hostB}
@@ -411,7 +417,7 @@ func init() {
 	fw.Register(&fw.Check{
 		ID:    "C06",
 		Level: "exploration",
-		Rule: "(callback) four real flows started through the proxy (A, A' = the same URL started a second time, A'' = another page started by a browser still carrying A's CSRF cookie, B on another upstream host) crossed with every combination of state {absent, garbage, state_A, state_A', state_B, cookie_A as state, re-encoded cookie_A, sealed under another key} x CSRF cookie {absent, garbage, cookie_A, cookie_A', cookie_B, state_A as cookie} x code {absent, redeemable allowed user, the same with tokens so long that the sealed session exceeds 4096 bytes, redeemable denied user, rejected, authenticator 503} x error {absent, set} x Host {A, B}; " +
+		Rule: "(callback) four real flows started through the proxy (A, A' = the same URL started a second time, A'' = another page started by a browser still carrying A's CSRF cookie, B on another upstream host) crossed with every combination of state {absent, garbage, state_A, state_A', state_B, cookie_A as state, re-encoded cookie_A, sealed under another key} x CSRF cookie {a session value sealed by this proxy (not a flow record), absent, garbage, cookie_A, cookie_A', cookie_B, state_A as cookie} x code {absent, redeemable allowed user, the same with tokens so long that the sealed session exceeds 4096 bytes, redeemable denied user, rejected, authenticator 503} x error {absent, set} x Host {A, B}; " +
 			"(target) every origin-form request target built from segments {a, empty, ., .., %2f, %5c, backslash, evil.test, @evil.test, %2e%2e, ;x} to depth 2 (quick) / 3 (thorough) x {no query, query naming another authority, fragment naming another authority}, plus absolute-form targets naming the upstream's own host, sent as raw bytes; each started flow is completed honestly. " +
 			"(rules) two upstreams with different rules (an email domain; a group) behind one proxy: a complete honest flow x Host {2} x user {4: passes both, domain only, group only, neither} x the authenticator's profile answer at that moment {200, 429, 503, 500, reset, 200 not JSON} x a client header naming the other upstream {none, X-Forwarded-Host, X-Original-Host, Forwarded}: a session is set only for a user passing the rule of the upstream serving the request Host (for a group rule: the profile endpoint answered and listed an allowed group), bound to that Host. " +
 			"Oracle ('only when'): session cookie set => state and cookie both sealed by this proxy, different ciphertexts, equal flow records, code redeemed for a user that passes the rules, no error parameter; session bound to the request Host; Location = recorded URI and resolves to the same host under an RFC 3986 reading and a browser-style reading. " +
